@@ -14,6 +14,7 @@
 #include <set>
 
 #include "c05_common.hh"
+#include "c05_readers.hh"
 
 static std::map<std::string, int> seen;
 static uint64_t skipped = 0, executed = 0;
@@ -39,7 +40,7 @@ extern "C" int LLVMFuzzerTestOneInput(const uint8_t* data, size_t size) {
   executed++;
   std::string doc((const char*)data, size);
   c05::Six s;
-  c05::run_all(doc, s, [&](const std::string& key, const std::string& what) {
+  auto emit = [&](const std::string& key, const std::string& what) {
     int& n = seen[key];
     if (n++ >= 5) return;
     const char* fn = getenv("C05_FUZZ_OUT");
@@ -53,6 +54,31 @@ extern "C" int LLVMFuzzerTestOneInput(const uint8_t* data, size_t size) {
     } else {
       fprintf(stderr, "ORACLE %s\t%s\t%s\n", key.c_str(), c05::hexs(doc).c_str(), w.c_str());
     }
-  });
+  };
+  c05::run_all(doc, s, emit);
+  // Reader-construction matrix (c05_readers.hh), two constructions per unit: the input is cut at a content-derived
+  // point; the head is the logical input, the tail stays in memory right behind the reader's logical end.
+  // Deterministic in the input bytes (libFuzzer re-executes units).
+  {
+    uint64_t h = 1469598103934665603ULL;
+    for (size_t i = 0; i < size; i++) h = (h ^ data[i]) * 1099511628211ULL;
+    size_t cut = (size_t)((h >> 17) % (size + 1));
+    std::string head = doc.substr(0, cut), tail = doc.substr(cut);
+    c05::Out ref[2];
+    if (cut == size) {
+      ref[0] = s.o[0][0];
+      ref[1] = s.o[1][0];
+    } else {
+      ref[0] = c05::run_entry(0, head, false);
+      ref[1] = c05::run_entry(0, head, true);
+    }
+    vf::Rng rng(h);
+    static c05::MatrixStats st;
+    std::vector<int> which = {(int)((h >> 7) % c05::K_GUARD_END), (int)(c05::K_TRUNC + (h >> 3) % 5)};  // heap constructions only
+    c05::reader_matrix(
+        "fuzz", head, ref, &tail, which, rng, st,
+        [&](const std::string& key, const std::string& what, const std::string& kase) { emit(key, what + " [" + kase.substr(0, 300) + "]"); },
+        [](const char*, int, const char*) {}, [](const std::string&) {});
+  }
   return 0;
 }
